@@ -8,6 +8,7 @@ import (
 	"path/filepath"
 	"sort"
 	"strings"
+	"sync"
 
 	"verif/kernel"
 )
@@ -66,9 +67,15 @@ func runCLI(env *kernel.Env, scr string, progs []progRef) (int, []kernel.Found) 
 	return runs, found
 }
 
-var goEnvCache = map[string]string{}
+var (
+	goEnvCache = map[string]string{}
+	goEnvMu    sync.Mutex
+)
 
+// goEnv is called from the parallel CLI runs: the cache needs its lock.
 func goEnv(k string) string {
+	goEnvMu.Lock()
+	defer goEnvMu.Unlock()
 	if v, ok := goEnvCache[k]; ok {
 		return v
 	}
